@@ -1,3 +1,1030 @@
 // Kani harnesses (child module of crates/axmos-db/src/io/wal.rs).  See /verif/HARNESS_GUIDE.md
-#![allow(unused_imports, dead_code, clippy::all)]
+// C17 / C01 — ONE-STEP inductive harnesses over the private state of `WriteAheadLog` / `WalReader`.
+//
+// Ghost state.  T = number of blocks that are durable in the file (block zero included) = the `total_blocks`
+// value written by the last successful force (1 for a freshly created / truncated log).
+// Representation invariant assumed for a pre-state (INV), each clause justified by the code that establishes it:
+//   * block_size == 4096 for header, current block and every queued block (all come from `self.block_size`);
+//   * used_bytes of every block is a multiple of 8 (every record size is, C17.record_padding) and
+//     <= its capacity (try_push compares against available_space first, C17.block_space_arith);
+//   * flush_queue non-empty  =>  current_block is Some (rotate_block always installs a new current block);
+//   * queued blocks are only produced by rotate_block, at most q <= 2 of them here (bound).
+#![allow(unused_imports, dead_code, clippy::all, static_mut_refs)]
 use super::*;
+use crate::storage::wal::{BlockHeader, BlockZeroHeader, RecordHeader};
+use std::os::fd::FromRawFd;
+
+const BS: usize = 4096;
+const BH: usize = std::mem::size_of::<BlockHeader>();
+const BZH: usize = std::mem::size_of::<BlockZeroHeader>();
+const RH: usize = std::mem::size_of::<RecordHeader>();
+/// largest used_bytes of a WalBlock / of block zero (available_space subtracts the header twice)
+const WB_CAP: usize = BS - 2 * BH;
+const BZ_CAP: usize = BS - 2 * BZH;
+
+fn okf<T, E>(r: Result<T, E>) -> Option<T> {
+    match r {
+        Ok(v) => Some(v),
+        Err(e) => {
+            std::mem::forget(e);
+            None
+        }
+    }
+}
+
+/// `format!` only builds the error text of the "record too large" branch
+pub(crate) fn stub_format(_a: std::fmt::Arguments<'_>) -> String {
+    String::new()
+}
+
+// ---- a DBFile that is never really used: every operation on it is replaced by a recording stub -------------
+struct FakeDbFile {
+    f: std::fs::File,
+    p: std::path::PathBuf,
+}
+/// `DBFile { f: File, p: PathBuf }` has private fields; same field list => same layout.  fd 1_000_000 is not open:
+/// natively (no stubs) every operation fails with EBADF instead of touching a real file.
+fn fake_dbfile() -> DBFile {
+    let fake = FakeDbFile { f: unsafe { std::fs::File::from_raw_fd(1_000_000) }, p: std::path::PathBuf::new() };
+    unsafe { std::mem::transmute::<FakeDbFile, DBFile>(fake) }
+}
+
+// ---- trace of file operations ------------------------------------------------------------------------------
+const TR_MAX: usize = 6;
+#[derive(Clone, Copy)]
+struct Ev {
+    kind: u8, // 1 = write, 2 = sync
+    off: u64, // file position the write landed on
+    len: usize,
+    ptr: *const u8, // identity of the buffer written
+    hdr_total_blocks: u64,   // for writes at offset 0: fields of the WAL header inside the buffer
+    hdr_last_block_used: u32,
+    hdr_used_bytes: u64,
+}
+const EV0: Ev = Ev { kind: 0, off: 0, len: 0, ptr: std::ptr::null(), hdr_total_blocks: 0, hdr_last_block_used: 0, hdr_used_bytes: 0 };
+struct Trace {
+    pos: u64,
+    pos_valid: bool, // false until the first absolute seek
+    bad_seek: bool,  // a relative seek was used
+    n: usize,
+    overflow: bool,
+    ev: [Ev; TR_MAX],
+    reads: usize,
+    read_past_end: bool,
+    read_limit: u64,
+}
+static mut TR: Trace = Trace { pos: 0, pos_valid: false, bad_seek: false, n: 0, overflow: false, ev: [EV0; TR_MAX], reads: 0, read_past_end: false, read_limit: 0 };
+
+pub(crate) fn stub_seek(_f: &mut DBFile, pos: SeekFrom) -> io::Result<u64> {
+    unsafe {
+        match pos {
+            SeekFrom::Start(o) => {
+                TR.pos = o;
+                TR.pos_valid = true;
+                Ok(o)
+            }
+            _ => {
+                TR.bad_seek = true;
+                Ok(0)
+            }
+        }
+    }
+}
+/// whole-buffer write at the current position (short / failing writes are outside the model)
+pub(crate) fn stub_write(_f: &mut DBFile, buf: &[u8]) -> io::Result<usize> {
+    unsafe {
+        if TR.n < TR_MAX {
+            let mut e = EV0;
+            e.kind = 1;
+            e.off = TR.pos;
+            e.len = buf.len();
+            e.ptr = buf.as_ptr();
+            if TR.pos == 0 && buf.len() >= BZH {
+                let h = &*(buf.as_ptr() as *const BlockZeroHeader);
+                e.hdr_total_blocks = h.wal_header.total_blocks;
+                e.hdr_last_block_used = h.wal_header.last_block_used;
+                e.hdr_used_bytes = h.block_header.used_bytes;
+            }
+            TR.ev[TR.n] = e;
+            TR.n += 1;
+        } else {
+            TR.overflow = true;
+        }
+        if !TR.pos_valid {
+            TR.bad_seek = true;
+        }
+        TR.pos += buf.len() as u64;
+    }
+    Ok(buf.len())
+}
+pub(crate) fn stub_sync(_f: &DBFile) -> io::Result<()> {
+    unsafe {
+        if TR.n < TR_MAX {
+            let mut e = EV0;
+            e.kind = 2;
+            TR.ev[TR.n] = e;
+            TR.n += 1;
+        } else {
+            TR.overflow = true;
+        }
+    }
+    Ok(())
+}
+
+// ---- pre-state builders ------------------------------------------------------------------------------------
+fn any_used(cap: usize) -> u64 {
+    let u: usize = kani::any();
+    kani::assume(u % 8 == 0 && u <= cap);
+    u as u64
+}
+/// block zero with arbitrary counters and fill level
+fn any_header(total_blocks: u64) -> BlockZero {
+    let mut h = BlockZero::alloc(0, BS);
+    let m = h.metadata_mut();
+    m.block_header.used_bytes = any_used(BZ_CAP);
+    m.block_header.block_first_lsn = kani::any();
+    m.block_header.block_last_lsn = kani::any();
+    m.wal_header.global_start_lsn = kani::any();
+    m.wal_header.global_last_lsn = kani::any();
+    m.wal_header.total_entries = kani::any();
+    m.wal_header.last_block_used = kani::any();
+    m.wal_header.last_checkpoint_offset = kani::any();
+    m.wal_header.total_blocks = total_blocks;
+    h
+}
+fn any_block(id: BlockId, used: u64) -> WalBlock {
+    let mut b = WalBlock::alloc(id, BS);
+    b.metadata_mut().used_bytes = used;
+    b.metadata_mut().block_first_lsn = kani::any();
+    b.metadata_mut().block_last_lsn = kani::any();
+    b
+}
+
+// =============================================================================================================
+// C17.flush_step / C01 : one call of perform_flush (the force)
+// =============================================================================================================
+struct FlushPre {
+    wal: WriteAheadLog,
+    t: u64,
+    qptr: [*const u8; 2],
+    cur_ptr: *const u8,
+    cur_used: u64, // 0 when there is no current block
+    has_cur: bool,
+    hdr_ptr: *const u8,
+    hdr_used: u64,
+}
+/// arbitrary pre-state satisfying INV with `q` queued blocks and T in [t_lo, t_hi]
+fn flush_pre(q: usize, t_lo: u64, t_hi: u64) -> FlushPre {
+    let t: u64 = kani::any();
+    kani::assume(t >= t_lo && t <= t_hi);
+    // rotate_block bumps total_blocks once per queued block
+    let header = any_header(t + q as u64);
+    let hdr_ptr = header.as_ref().as_ptr();
+    let hdr_used = header.metadata().block_header.used_bytes;
+    let mut queue: VecDeque<WalBlock> = VecDeque::with_capacity(2);
+    let mut qptr = [std::ptr::null::<u8>(); 2];
+    let mut i = 0;
+    while i < q {
+        let b = any_block(kani::any(), any_used(WB_CAP));
+        qptr[i] = b.as_ref().as_ptr();
+        queue.push_back(b);
+        i += 1;
+    }
+    let has_cur: bool = if q > 0 { true } else { kani::any() };
+    let (current_block, cur_ptr, cur_used) = if has_cur {
+        let used = any_used(WB_CAP);
+        let b = any_block(kani::any(), used);
+        let p = b.as_ref().as_ptr();
+        (Some(b), p, used)
+    } else {
+        (None, std::ptr::null(), 0)
+    };
+    let wal = WriteAheadLog { header, current_block, flush_queue: queue, file: fake_dbfile(), block_size: BS };
+    FlushPre { wal, t, qptr, cur_ptr, cur_used, has_cur, hdr_ptr, hdr_used }
+}
+fn ev(i: usize) -> Ev {
+    unsafe { TR.ev[i] }
+}
+fn n_ev() -> usize {
+    unsafe { TR.n }
+}
+
+/// which law a flush harness asserts
+const LAW_ORDER: u8 = 0;
+const LAW_NO_OVERWRITE: u8 = 1;
+const LAW_HEADER_COVERS: u8 = 2;
+
+fn flush_check(q: usize, t_lo: u64, t_hi: u64, law: u8, need_data: bool) {
+    let mut s = flush_pre(q, t_lo, t_hi);
+    // number of data blocks a force has to write: the queue and a non-empty current block
+    let cur_written = s.has_cur && s.cur_used > 0;
+    let w = q + if cur_written { 1 } else { 0 };
+    if need_data {
+        kani::assume(w >= 1);
+    }
+    kani::cover!(true, "reach");
+    let ok = okf(s.wal.perform_flush()).is_some();
+    let n = n_ev();
+    let bs = BS as u64;
+    if law == LAW_ORDER {
+        assert!(ok, "force_succeeds_when_io_succeeds");
+        assert!(unsafe { !TR.overflow && !TR.bad_seek }, "every_write_preceded_by_absolute_seek");
+        assert!(n == w + 2, "force_writes_each_pending_block_once_then_header_then_sync");
+        // data blocks: queue order, then the current block, whole blocks at consecutive block-aligned offsets
+        let mut i = 0;
+        while i < w {
+            let e = ev(i);
+            assert!(e.kind == 1 && e.len == BS, "data_block_written_whole");
+            assert!(e.off % bs == 0 && e.off >= bs, "data_block_offset_block_aligned_beyond_block_zero");
+            if i > 0 {
+                assert!(e.off == ev(i - 1).off + bs, "data_blocks_at_consecutive_distinct_offsets");
+            }
+            let want = if i < q { s.qptr[i] } else { s.cur_ptr };
+            assert!(e.ptr == want, "pending_blocks_written_in_append_order");
+            i += 1;
+        }
+        // header after the data, at offset 0, from the in-memory block zero; sync is the last event
+        if n == w + 2 {
+            let h = ev(w);
+            assert!(h.kind == 1 && h.off == 0 && h.len == BS && h.ptr == s.hdr_ptr, "header_block_written_after_data_at_offset_0");
+            assert!(h.hdr_used_bytes == s.hdr_used, "header_block_keeps_its_records");
+            assert!(ev(w + 1).kind == 2, "sync_is_last");
+            if cur_written {
+                assert!(h.hdr_last_block_used as u64 == s.cur_used, "header_last_block_used_is_last_block_fill");
+            }
+            if w == 0 && !s.has_cur {
+                assert!(h.hdr_last_block_used as u64 == s.hdr_used, "header_last_block_used_is_last_block_fill");
+            }
+        }
+        // nothing stays pending (so nothing is written twice by the next force)
+        assert!(s.wal.flush_queue.is_empty() && s.wal.current_block.is_none(), "nothing_pending_after_force");
+    }
+    if law == LAW_NO_OVERWRITE {
+        // a force never destroys previously forced blocks 1..T
+        let mut i = 0;
+        while i < n {
+            let e = ev(i);
+            if e.kind == 1 && e.ptr != s.hdr_ptr {
+                assert!(e.off >= s.t * bs, "durable_block_not_overwritten");
+            }
+            i += 1;
+        }
+        assert!(n >= w, "pending_blocks_written");
+    }
+    if law == LAW_HEADER_COVERS {
+        // the header that reaches the disk announces exactly the durable blocks + the ones just written
+        assert!(n == w + 2 && ev(w).off == 0 && ev(w).ptr == s.hdr_ptr, "header_block_written_after_data_at_offset_0");
+        assert!(ev(w).hdr_total_blocks == s.t + w as u64, "header_total_blocks_covers_all_durable_blocks");
+        assert!(s.wal.header.metadata().wal_header.total_blocks == s.t + w as u64, "memory_total_blocks_covers_all_durable_blocks");
+    }
+    std::mem::forget(s);
+}
+
+macro_rules! hflush {
+    ($name:ident, $q:expr, $tlo:expr, $thi:expr, $law:expr, $need:expr) => {
+        #[kani::proof]
+        #[kani::unwind(8)]
+        #[kani::stub(<DBFile as std::io::Seek>::seek, stub_seek)]
+        #[kani::stub(<DBFile as std::io::Write>::write, stub_write)]
+        #[kani::stub(<DBFile as FileOperations>::sync_all, stub_sync)]
+        fn $name() {
+            flush_check($q, $tlo, $thi, $law, $need);
+        }
+    };
+}
+
+// --- laws that hold for every T: ordering, completeness, contiguity -----------------------------------------
+// @obl harness=c17_flush_order_q0 id=C17.flush_order[q=0] also=C01 native=c17_forces_preserve_log tier=thorough funcs="WriteAheadLog::perform_flush" bounds="block 4096; T in 1..=1000; empty flush queue; current block absent or with any used_bytes (multiple of 8 <= 3968); header counters symbolic" stubs="<DBFile as Seek>::seek,<DBFile as Write>::write,<DBFile as FileOperations>::sync_all" assume="INV (see file header): used_bytes multiple of 8 and <= capacity; whole-buffer writes that succeed"
+hflush!(c17_flush_order_q0, 0, 1, 1000, LAW_ORDER, false);
+// @obl harness=c17_flush_order_q1 id=C17.flush_order[q=1] also=C01 native=c17_forces_preserve_log tier=quick funcs="WriteAheadLog::perform_flush" bounds="block 4096; T in 1..=1000; 1 queued block + current block, any used_bytes" stubs="<DBFile as Seek>::seek,<DBFile as Write>::write,<DBFile as FileOperations>::sync_all" assume="INV: queue non-empty => current block present; used_bytes multiple of 8 and <= capacity; whole-buffer writes that succeed"
+hflush!(c17_flush_order_q1, 1, 1, 1000, LAW_ORDER, false);
+// @obl harness=c17_flush_order_q2 id=C17.flush_order[q=2] also=C01 native=c17_forces_preserve_log tier=thorough funcs="WriteAheadLog::perform_flush" bounds="block 4096; T in 1..=1000; 2 queued blocks + current block, any used_bytes" stubs="<DBFile as Seek>::seek,<DBFile as Write>::write,<DBFile as FileOperations>::sync_all" assume="INV: queue non-empty => current block present; used_bytes multiple of 8 and <= capacity; whole-buffer writes that succeed"
+hflush!(c17_flush_order_q2, 2, 1, 1000, LAW_ORDER, false);
+
+// --- no durable block is overwritten: complement region T == 1 (nothing but block zero is durable) ----------
+// @obl harness=c17_flush_noow_t1_q0 id=C17.flush_no_overwrite[T=1;q=0] also=C01 native=c17_forces_preserve_log tier=thorough funcs="WriteAheadLog::perform_flush" bounds="block 4096; T = 1; empty queue; current block absent or any fill" stubs="<DBFile as Seek>::seek,<DBFile as Write>::write,<DBFile as FileOperations>::sync_all" assume="INV; region T == 1 (complement of the known-finding region)"
+hflush!(c17_flush_noow_t1_q0, 0, 1, 1, LAW_NO_OVERWRITE, false);
+// @obl harness=c17_flush_noow_t1_q1 id=C17.flush_no_overwrite[T=1;q=1] also=C01 native=c17_forces_preserve_log tier=quick funcs="WriteAheadLog::perform_flush" bounds="block 4096; T = 1; 1 queued block + current" stubs="<DBFile as Seek>::seek,<DBFile as Write>::write,<DBFile as FileOperations>::sync_all" assume="INV; region T == 1"
+hflush!(c17_flush_noow_t1_q1, 1, 1, 1, LAW_NO_OVERWRITE, false);
+// @obl harness=c17_flush_noow_t1_q2 id=C17.flush_no_overwrite[T=1;q=2] also=C01 native=c17_forces_preserve_log tier=thorough funcs="WriteAheadLog::perform_flush" bounds="block 4096; T = 1; 2 queued blocks + current" stubs="<DBFile as Seek>::seek,<DBFile as Write>::write,<DBFile as FileOperations>::sync_all" assume="INV; region T == 1"
+hflush!(c17_flush_noow_t1_q2, 2, 1, 1, LAW_NO_OVERWRITE, false);
+// --- region where the pinned tree fails: T >= 2 and at least one data block to write -----------------------
+// @obl harness=c17_flush_noow_t2_q0 id=C17.flush_no_overwrite[T>=2;q=0] also=C01 native=c17_forces_preserve_log tier=quick funcs="WriteAheadLog::perform_flush" bounds="block 4096; T in 2..=1000; empty queue; current block with used_bytes > 0" stubs="<DBFile as Seek>::seek,<DBFile as Write>::write,<DBFile as FileOperations>::sync_all" assume="INV; region T >= 2 with >= 1 pending data block (exactly the failing region)"
+hflush!(c17_flush_noow_t2_q0, 0, 2, 1000, LAW_NO_OVERWRITE, true);
+// @obl harness=c17_flush_noow_t2_q1 id=C17.flush_no_overwrite[T>=2;q=1] also=C01 native=c17_forces_preserve_log tier=quick funcs="WriteAheadLog::perform_flush" bounds="block 4096; T in 2..=1000; 1 queued block + current" stubs="<DBFile as Seek>::seek,<DBFile as Write>::write,<DBFile as FileOperations>::sync_all" assume="INV; region T >= 2 with >= 1 pending data block"
+hflush!(c17_flush_noow_t2_q1, 1, 2, 1000, LAW_NO_OVERWRITE, true);
+// @obl harness=c17_flush_noow_t2_q2 id=C17.flush_no_overwrite[T>=2;q=2] also=C01 native=c17_forces_preserve_log tier=quick funcs="WriteAheadLog::perform_flush" bounds="block 4096; T in 2..=1000; 2 queued blocks + current" stubs="<DBFile as Seek>::seek,<DBFile as Write>::write,<DBFile as FileOperations>::sync_all" assume="INV; region T >= 2 with >= 1 pending data block"
+hflush!(c17_flush_noow_t2_q2, 2, 2, 1000, LAW_NO_OVERWRITE, true);
+
+// --- the header on disk announces T + written blocks ---------------------------------------------------------
+// @obl harness=c17_flush_hdr_t1_q0 id=C17.flush_header_covers[T=1;q=0] also=C01 native=c17_forces_preserve_log tier=thorough funcs="WriteAheadLog::perform_flush" bounds="block 4096; T = 1; empty queue; current block absent or any fill" stubs="<DBFile as Seek>::seek,<DBFile as Write>::write,<DBFile as FileOperations>::sync_all" assume="INV; region T == 1"
+hflush!(c17_flush_hdr_t1_q0, 0, 1, 1, LAW_HEADER_COVERS, false);
+// @obl harness=c17_flush_hdr_t1_q1 id=C17.flush_header_covers[T=1;q=1] also=C01 native=c17_forces_preserve_log tier=quick funcs="WriteAheadLog::perform_flush" bounds="block 4096; T = 1; 1 queued block + current" stubs="<DBFile as Seek>::seek,<DBFile as Write>::write,<DBFile as FileOperations>::sync_all" assume="INV; region T == 1"
+hflush!(c17_flush_hdr_t1_q1, 1, 1, 1, LAW_HEADER_COVERS, false);
+// @obl harness=c17_flush_hdr_t1_q2 id=C17.flush_header_covers[T=1;q=2] also=C01 native=c17_forces_preserve_log tier=thorough funcs="WriteAheadLog::perform_flush" bounds="block 4096; T = 1; 2 queued blocks + current" stubs="<DBFile as Seek>::seek,<DBFile as Write>::write,<DBFile as FileOperations>::sync_all" assume="INV; region T == 1"
+hflush!(c17_flush_hdr_t1_q2, 2, 1, 1, LAW_HEADER_COVERS, false);
+// @obl harness=c17_flush_hdr_t2_q0 id=C17.flush_header_covers[T>=2;q=0] also=C01 native=c17_forces_preserve_log tier=quick funcs="WriteAheadLog::perform_flush" bounds="block 4096; T in 2..=1000; empty queue; current block absent or any fill (including nothing to write)" stubs="<DBFile as Seek>::seek,<DBFile as Write>::write,<DBFile as FileOperations>::sync_all" assume="INV; region T >= 2 (exactly the failing region)"
+hflush!(c17_flush_hdr_t2_q0, 0, 2, 1000, LAW_HEADER_COVERS, false);
+// @obl harness=c17_flush_hdr_t2_q1 id=C17.flush_header_covers[T>=2;q=1] also=C01 native=c17_forces_preserve_log tier=quick funcs="WriteAheadLog::perform_flush" bounds="block 4096; T in 2..=1000; 1 queued block + current" stubs="<DBFile as Seek>::seek,<DBFile as Write>::write,<DBFile as FileOperations>::sync_all" assume="INV; region T >= 2"
+hflush!(c17_flush_hdr_t2_q1, 1, 2, 1000, LAW_HEADER_COVERS, false);
+// @obl harness=c17_flush_hdr_t2_q2 id=C17.flush_header_covers[T>=2;q=2] also=C01 native=c17_forces_preserve_log tier=thorough funcs="WriteAheadLog::perform_flush" bounds="block 4096; T in 2..=1000; 2 queued blocks + current" stubs="<DBFile as Seek>::seek,<DBFile as Write>::write,<DBFile as FileOperations>::sync_all" assume="INV; region T >= 2"
+hflush!(c17_flush_hdr_t2_q2, 2, 2, 1000, LAW_HEADER_COVERS, false);
+
+// =============================================================================================================
+// C17.push_step : one call of WriteAheadLog::push
+// =============================================================================================================
+// Fill levels are concrete shapes (a symbolic write offset into a 4 KiB block costs minutes, see c17_wal_storage.rs:
+// the fit/no-fit arithmetic for every fill level is C17.block_space_arith); counters, ids, kinds, payload bytes,
+// T and the block lsns are symbolic.
+fn model_total(u: usize, r: usize) -> usize {
+    let raw = RH + u + r;
+    let rem = raw % 8;
+    if rem == 0 { raw } else { raw + (8 - rem) }
+}
+/// payloads up to 16 bytes are compared byte by byte; larger ones (block-filling records, constant content
+/// 0x5a / 0xa5) by length, first and last byte (a full compare would need thousands of unwindings)
+fn bytes_eq(a: &[u8], b: &[u8]) -> bool {
+    if a.len() != b.len() {
+        return false;
+    }
+    if a.len() > 16 {
+        return a[0] == b[0] && a[a.len() - 1] == b[b.len() - 1];
+    }
+    let mut i = 0;
+    while i < a.len() {
+        if a[i] != b[i] {
+            return false;
+        }
+        i += 1;
+    }
+    true
+}
+fn any_record_type() -> RecordType {
+    let k: u8 = kani::any();
+    kani::assume(k < 10);
+    match k {
+        0 => RecordType::Begin,
+        1 => RecordType::Commit,
+        2 => RecordType::Abort,
+        3 => RecordType::End,
+        4 => RecordType::Update,
+        5 => RecordType::Delete,
+        6 => RecordType::Insert,
+        7 => RecordType::Create,
+        8 => RecordType::Drop,
+        _ => RecordType::Alter,
+    }
+}
+/// sentinel bytes planted around the place the record must go: the first byte of the data area, the last used
+/// byte and the first byte after the record must keep their values (raw pointer access: no extra bounds checks)
+fn plant(data: &mut [u8], used: usize, size: usize, v: [u8; 3]) {
+    let n = data.len();
+    let p = data.as_mut_ptr();
+    unsafe {
+        *p = v[0];
+        if used > 0 && used <= n {
+            *p.add(used.wrapping_sub(1)) = v[1];
+        }
+        if used.wrapping_add(size) < n {
+            *p.add(used.wrapping_add(size)) = v[2];
+        }
+    }
+}
+/// `written` = a record was (legitimately) written at offset `used`: it may replace data[0] when used == 0
+fn planted_ok(data: &[u8], used: usize, size: usize, v: [u8; 3], written: bool) -> bool {
+    let n = data.len();
+    let p = data.as_ptr();
+    unsafe {
+        let a = if written && used == 0 { true } else { *p == v[0] };
+        let b = if used > 0 && used <= n { *p.add(used.wrapping_sub(1)) == v[1] } else { true };
+        let c = if used.wrapping_add(size) < n { *p.add(used.wrapping_add(size)) == v[2] } else { true };
+        a && b && c
+    }
+}
+
+#[derive(Clone, Copy, PartialEq)]
+enum Target {
+    Header,      // lands in block zero
+    Current,     // lands in the existing current block
+    FirstSpill,  // block zero full, no current block: a fresh current block is created
+    Rotate,      // current block full: it is queued, a new block with the next number is installed
+    RejectEarly, // can never be stored in a block: Err before any state change
+}
+const CHECK_ALL: u8 = 0;
+const CHECK_ORDER: u8 = 1;
+const CHECK_REJECT: u8 = 2;
+
+/// does the record stored at `off` of the block with data area `data` equal the pushed one?
+struct RecImg<const U: usize, const R: usize> {
+    lsn: Lsn,
+    tid: TransactionId,
+    prev: Option<Lsn>,
+    oid: Option<u64>,
+    rid: Option<u64>,
+    rt: RecordType,
+    undo: [u8; U],
+    redo: [u8; R],
+}
+fn same_header<const U: usize, const R: usize>(h: &RecordHeader, w: &RecImg<U, R>, size: usize) -> bool {
+    h.lsn == w.lsn && h.tid == w.tid && h.prev_lsn == w.prev && h.object_id == w.oid && h.row_id == w.rid && h.log_type == w.rt
+        && h.total_size as usize == size && h.undo_len as usize == U && h.redo_len as usize == R
+}
+
+/// One push from the pre-state (T, q queued blocks, header fill `hdr_used`, current block fill `cur_used`).
+/// Every law is computed as one boolean and asserted once (each reachable assert costs a full trace in Kani's
+/// reachability instrumentation).
+fn push_case<const U: usize, const R: usize>(t_lo: u64, t_hi: u64, q: usize, hdr_used: usize, cur_used: Option<usize>, symbolic_payload: bool, expect: Target, check: u8) {
+    let size = model_total(U, R);
+    let t: u64 = kani::any();
+    kani::assume(t >= t_lo && t <= t_hi);
+    let tb0 = t.wrapping_add(q as u64);
+    let mut header = any_header(tb0);
+    header.metadata_mut().block_header.used_bytes = hdr_used as u64;
+    kani::assume(header.metadata().wal_header.total_entries < u32::MAX); // counter overflow: separate harness
+    let hv: [u8; 3] = kani::any();
+    plant(header.data_mut(), hdr_used, size, hv);
+    let start0 = header.metadata().wal_header.global_start_lsn;
+    let last0 = header.metadata().wal_header.global_last_lsn;
+    let entries0 = header.metadata().wal_header.total_entries;
+    let hfirst0 = header.metadata().block_header.block_first_lsn;
+    let hlast0 = header.metadata().block_header.block_last_lsn;
+
+    let mut queue: VecDeque<WalBlock> = VecDeque::with_capacity(4);
+    let mut i = 0;
+    while i < q {
+        queue.push_back(any_block(kani::any(), any_used(WB_CAP)));
+        i += 1;
+    }
+    let cv: [u8; 3] = kani::any();
+    let cu = match cur_used {
+        Some(u) => u,
+        None => 0,
+    };
+    let mut cur_ptr: *const u8 = std::ptr::null();
+    let mut cfirst0: Option<Lsn> = None;
+    let current_block = if cur_used.is_some() {
+        let mut b = any_block(kani::any(), cu as u64);
+        plant(b.data_mut(), cu, size, cv);
+        cur_ptr = b.as_ref().as_ptr();
+        cfirst0 = b.metadata().block_first_lsn;
+        Some(b)
+    } else {
+        None
+    };
+    let mut wal = WriteAheadLog { header, current_block, flush_queue: queue, file: fake_dbfile(), block_size: BS };
+
+    // the record
+    let w: RecImg<U, R> = RecImg {
+        lsn: kani::any(),
+        tid: kani::any(),
+        prev: kani::any(),
+        oid: kani::any(),
+        rid: kani::any(),
+        rt: any_record_type(),
+        undo: if symbolic_payload { kani::any() } else { [0x5a; U] },
+        redo: if symbolic_payload { kani::any() } else { [0xa5; R] },
+    };
+    let rec = OwnedRecord::new(w.lsn, w.tid, w.prev, w.oid, w.rid, w.rt, &w.undo, &w.redo);
+    kani::cover!(true, "reach");
+
+    let ok = okf(wal.push(rec)).is_some();
+
+    let wh = wal.header.metadata().wal_header;
+    let bz = wal.header.metadata().block_header;
+    let qlen = wal.flush_queue.len();
+    let hdr_changed = bz.used_bytes as usize != hdr_used;
+
+    if check == CHECK_ORDER {
+        // read order = block zero, then blocks 1.. in file order: once any block beyond block zero exists
+        // (durable: T >= 2, or pending), a newly appended record must not be placed in block zero
+        assert!(ok, "push_accepts_record_that_fits");
+        assert!(!(hdr_changed && (t >= 2 || q > 0)), "appended_record_is_last_in_read_order");
+        std::mem::forget(wal);
+        return;
+    }
+    if check == CHECK_REJECT {
+        let counters_same = wh.global_start_lsn == start0 && wh.global_last_lsn == last0 && wh.total_entries == entries0 && wh.total_blocks == tb0;
+        let cur_same = match &wal.current_block {
+            Some(b) => cur_used.is_some() && b.as_ref().as_ptr() == cur_ptr && b.metadata().used_bytes as usize == cu,
+            None => cur_used.is_none(),
+        };
+        assert!(!ok, "unstorable_record_rejected");
+        assert!(counters_same, "rejected_push_leaves_counters");
+        assert!(qlen == q, "rejected_push_leaves_queue");
+        assert!(!hdr_changed && cur_same, "rejected_push_leaves_blocks");
+        std::mem::forget(wal);
+        return;
+    }
+
+    let counters = wh.global_last_lsn == Some(w.lsn) && wh.global_start_lsn == if start0.is_none() { Some(w.lsn) } else { start0 };
+    let entries = wh.total_entries == entries0.wrapping_add(1);
+    let in_header = expect == Target::Header;
+    let off = match expect {
+        Target::Header => hdr_used,
+        Target::Current => cu,
+        _ => 0,
+    };
+    let end = off.wrapping_add(size);
+    // laws, filled per case
+    let mut inside_one_block = false;
+    let mut bytes_stay = false;
+    let mut hdr_same = false;
+    let mut payload_same = false;
+    let mut lsn_range = false;
+    let mut structure = false; // queue / current / total_blocks evolve as the case demands
+    let mut next_number = true;
+    if in_header {
+        let b = &wal.header;
+        structure = wal.current_block.is_none() && qlen == q && wh.total_blocks == tb0;
+        inside_one_block = bz.used_bytes as usize == end && end <= b.data().len();
+        bytes_stay = planted_ok(b.data(), hdr_used, size, hv, true);
+        lsn_range = bz.block_last_lsn == Some(w.lsn) && bz.block_first_lsn == if hfirst0.is_none() { Some(w.lsn) } else { hfirst0 };
+        if inside_one_block {
+            let rr = b.record(off as u64);
+            hdr_same = same_header(rr.metadata(), &w, size);
+            payload_same = bytes_eq(rr.undo_payload(), &w.undo) && bytes_eq(rr.redo_payload(), &w.redo);
+        }
+    } else if let Some(b) = &wal.current_block {
+        let m = *b.metadata();
+        let hdr_untouched = !hdr_changed && planted_ok(wal.header.data(), hdr_used, size, hv, false) && bz.block_first_lsn == hfirst0 && bz.block_last_lsn == hlast0;
+        inside_one_block = hdr_untouched && m.used_bytes as usize == end && end <= b.data().len();
+        if expect == Target::Current {
+            structure = qlen == q && wh.total_blocks == tb0 && b.as_ref().as_ptr() == cur_ptr;
+            bytes_stay = planted_ok(b.data(), cu, size, cv, true);
+            lsn_range = m.block_last_lsn == Some(w.lsn) && m.block_first_lsn == if cfirst0.is_none() { Some(w.lsn) } else { cfirst0 };
+        } else if expect == Target::FirstSpill {
+            structure = qlen == q && q == 0 && b.as_ref().as_ptr() != cur_ptr;
+            bytes_stay = true;
+            lsn_range = m.block_last_lsn == Some(w.lsn) && m.block_first_lsn == Some(w.lsn);
+        } else {
+            // rotation: the full block is queued unchanged, the new one carries the next block number
+            let moved = match wal.flush_queue.back() {
+                Some(old) => {
+                    bytes_stay = planted_ok(old.data(), cu, size, cv, false);
+                    old.as_ref().as_ptr() == cur_ptr && old.metadata().used_bytes as usize == cu
+                }
+                None => false,
+            };
+            structure = moved && qlen == q.wrapping_add(1) && wh.total_blocks == tb0.wrapping_add(1) && b.as_ref().as_ptr() != cur_ptr;
+            next_number = m.block_number == tb0;
+            lsn_range = m.block_last_lsn == Some(w.lsn) && m.block_first_lsn == Some(w.lsn);
+        }
+        if inside_one_block {
+            let rr = b.record(off as u64);
+            hdr_same = same_header(rr.metadata(), &w, size);
+            payload_same = bytes_eq(rr.undo_payload(), &w.undo) && bytes_eq(rr.redo_payload(), &w.redo);
+        }
+    }
+    assert!(ok, "push_accepts_record_that_fits");
+    assert!(counters, "global_lsn_range_tracks_record");
+    assert!(entries, "total_entries_advance_by_one");
+    assert!(inside_one_block, "record_wholly_inside_exactly_one_block");
+    assert!(bytes_stay, "existing_bytes_do_not_move");
+    assert!(hdr_same, "record_header_identical");
+    assert!(payload_same, "record_payload_identical");
+    assert!(lsn_range, "block_lsn_range_tracks_record");
+    assert!(structure, "blocks_and_queue_evolve_as_specified");
+    assert!(next_number, "new_block_gets_next_block_number");
+    std::mem::forget(wal);
+}
+
+macro_rules! hpush {
+    ($name:ident, $u:expr, $r:expr, $tlo:expr, $thi:expr, $q:expr, $hdr:expr, $cur:expr, $sym:expr, $expect:expr, $check:expr) => {
+        #[kani::proof]
+        #[kani::unwind(12)]
+        #[kani::stub(std::fmt::format, stub_format)]
+        fn $name() {
+            push_case::<$u, $r>($tlo, $thi, $q, $hdr, $cur, $sym, $expect, $check);
+        }
+    };
+}
+// record of 96 bytes (undo 3 + redo 6, values symbolic)
+// @obl harness=c17_push_hdr_room id=C17.push_step[block0:room] tier=quick funcs="WriteAheadLog::push,WalOps::try_push" bounds="block 4096; T = 1, nothing pending; block zero empty; record 3+6 payload bytes (96 total), all ids/kinds/counters symbolic" stubs="std::fmt::format" assume="INV; total_entries < u32::MAX"
+hpush!(c17_push_hdr_room, 3, 6, 1, 1, 0, 0, None, true, Target::Header, CHECK_ALL);
+// @obl harness=c17_push_hdr_exact id=C17.push_step[block0:exact_fit] tier=thorough funcs="WriteAheadLog::push,WalOps::try_push" bounds="block 4096; T = 1, nothing pending; block zero filled so that the 96-byte record fits exactly" stubs="std::fmt::format" assume="INV; total_entries < u32::MAX"
+hpush!(c17_push_hdr_exact, 3, 6, 1, 1, 0, BZ_CAP - 96, None, true, Target::Header, CHECK_ALL);
+// @obl harness=c17_push_first_spill id=C17.push_step[block0:full] tier=quick funcs="WriteAheadLog::push,WalOps::try_push" bounds="block 4096; T in 1..=1000, nothing pending; block zero 8 bytes short of the 96-byte record; no current block" stubs="std::fmt::format" assume="INV; total_entries < u32::MAX"
+hpush!(c17_push_first_spill, 3, 6, 1, 1000, 0, BZ_CAP - 88, None, true, Target::FirstSpill, CHECK_ALL);
+// @obl harness=c17_push_cur_room id=C17.push_step[current:room] tier=thorough funcs="WriteAheadLog::push,WalOps::try_push" bounds="block 4096; T in 1..=1000; block zero full; current block filled to 160; empty queue" stubs="std::fmt::format" assume="INV; total_entries < u32::MAX"
+hpush!(c17_push_cur_room, 3, 6, 1, 1000, 0, BZ_CAP, Some(160), true, Target::Current, CHECK_ALL);
+// @obl harness=c17_push_cur_exact id=C17.push_step[current:exact_fit] tier=thorough funcs="WriteAheadLog::push,WalOps::try_push" bounds="block 4096; T in 1..=1000; current block filled so that the 96-byte record fits exactly; empty queue" stubs="std::fmt::format" assume="INV; total_entries < u32::MAX"
+hpush!(c17_push_cur_exact, 3, 6, 1, 1000, 0, BZ_CAP - 8, Some(WB_CAP - 96), true, Target::Current, CHECK_ALL);
+// @obl harness=c17_push_rotate id=C17.push_step[current:rotate] tier=quick funcs="WriteAheadLog::push,WriteAheadLog::rotate_block,WriteAheadLog::get_next_block,WalOps::try_push" bounds="block 4096; T in 1..=1000; current block 8 bytes short of the 88-byte record (1 undo byte); empty queue" stubs="std::fmt::format" assume="INV; total_entries < u32::MAX"
+hpush!(c17_push_rotate, 1, 0, 1, 1000, 0, BZ_CAP, Some(WB_CAP - 80), true, Target::Rotate, CHECK_ALL);
+// @obl harness=c17_push_rotate_q1 id=C17.push_step[current:rotate;q=1] tier=thorough funcs="WriteAheadLog::push,WriteAheadLog::rotate_block,WriteAheadLog::get_next_block,WalOps::try_push" bounds="block 4096; T in 1..=1000; current block completely full; 1 queued block; record with empty payloads (80 bytes)" stubs="std::fmt::format" assume="INV; total_entries < u32::MAX"
+hpush!(c17_push_rotate_q1, 0, 0, 1, 1000, 1, BZ_CAP, Some(WB_CAP), true, Target::Rotate, CHECK_ALL);
+// Records that fill a whole block are NOT exercised: copying N payload bytes into a 4 KiB block costs N array copies
+// in the SAT encoding (3900 bytes => 1.3e8 variables, > 16 GB).  The exact-fit boundary is covered with small records
+// at high fill levels, and for every fill level by C17.block_space_arith.
+// a record that max_record_size() itself refuses: rejected before any state change
+// @obl harness=c17_push_oversize id=C17.push_step[oversize_rejected] tier=quick funcs="WriteAheadLog::push,WriteAheadLog::max_record_size" bounds="block 4096; T in 1..=1000; 1 queued block, current block at 160; record of 4040 bytes (> block - header = 4032)" stubs="std::fmt::format" assume="INV; total_entries < u32::MAX"
+hpush!(c17_push_oversize, 3960, 0, 1, 1000, 1, BZ_CAP, Some(160), false, Target::RejectEarly, CHECK_REJECT);
+// @obl harness=c17_push_oversize_fresh id=C17.push_step[oversize_rejected;fresh] tier=thorough funcs="WriteAheadLog::push,WriteAheadLog::max_record_size" bounds="block 4096; T = 1; fresh log (empty block zero, nothing pending); record of 4040 bytes" stubs="std::fmt::format" assume="INV; total_entries < u32::MAX"
+hpush!(c17_push_oversize_fresh, 3960, 0, 1, 1, 0, 0, None, false, Target::RejectEarly, CHECK_REJECT);
+// KNOWN-FINDING REGION: record sizes in (block - 2*header, block - header] = (3968, 4032] pass the max_record_size()
+// test (io/wal.rs:284) but no block ever has that much available_space() (storage/wal.rs:416-419 subtracts the
+// header twice): push then fails in try_push (io/wal.rs:321) AFTER it advanced global_last_lsn / total_entries
+// (io/wal.rs:298-302) and queued an empty block (io/wal.rs:317-319).  A one-step push harness with such a record is
+// not feasible (the infeasible "it fits" branch copies ~3900 bytes into the 4 KiB block: 1.3e8 SAT variables, > 16 GB),
+// so the root cause is checked as arithmetic: whatever the size test admits must fit into an empty block.
+// @obl harness=c17_push_max_record_fits id=C17.push_step[admitted_size_fits_empty_block] native=c17_oversize_record_state tier=quick funcs="WriteAheadLog::max_record_size,AvailableSpace::available_space" bounds="block 4096 (the relation is size - 64 vs size - 128 for every block size)" assume="none"
+#[kani::proof]
+#[kani::unwind(4)]
+fn c17_push_max_record_fits() {
+    let wal = WriteAheadLog { header: any_header(1), current_block: None, flush_queue: VecDeque::new(), file: fake_dbfile(), block_size: BS };
+    let empty = WalBlock::alloc(1, BS);
+    kani::cover!(true, "reach");
+    let admitted = wal.max_record_size();
+    let room = empty.available_space();
+    assert!(admitted <= room, "record_admitted_by_size_check_fits_in_an_empty_block");
+    std::mem::forget(empty);
+    std::mem::forget(wal);
+}
+
+// read order: block zero is read before blocks 1..; a record appended after such blocks exist must not land in block zero
+// @obl harness=c17_push_order_cur id=C17.push_order[current_present] native=c17_append_after_force_order tier=quick funcs="WriteAheadLog::push" bounds="block 4096; T in 1..=1000; 1 queued block; current block at 160; block zero still has room; 96-byte record" stubs="std::fmt::format" assume="INV; total_entries < u32::MAX"
+hpush!(c17_push_order_cur, 3, 6, 1, 1000, 1, 0, Some(160), true, Target::Current, CHECK_ORDER);
+// @obl harness=c17_push_order_full id=C17.push_order[block0_full] native=c17_append_after_force_order tier=quick funcs="WriteAheadLog::push" bounds="block 4096; T in 1..=1000; nothing pending; block zero without room for the 96-byte record" stubs="std::fmt::format" assume="INV; total_entries < u32::MAX"
+hpush!(c17_push_order_full, 3, 6, 1, 1000, 0, BZ_CAP - 88, None, true, Target::FirstSpill, CHECK_ORDER);
+// KNOWN-FINDING REGION: after a force (current_block = None) with durable blocks beyond block zero (T >= 2) and room left in block zero
+// @obl harness=c17_push_order_after_force id=C17.push_order[T>=2;block0_room] native=c17_append_after_force_order tier=quick funcs="WriteAheadLog::push" bounds="block 4096; T in 2..=1000; nothing pending (state right after a force); block zero with room; 96-byte record" stubs="std::fmt::format" assume="INV; total_entries < u32::MAX; region: T >= 2, no current block, block zero has room"
+hpush!(c17_push_order_after_force, 3, 6, 2, 1000, 0, 160, None, true, Target::Header, CHECK_ORDER);
+
+// KNOWN-FINDING REGION (minor): the u32 entry counter overflows on the 2^32-th record since the last truncate
+// @obl harness=c17_push_entries_max id=C17.push_step[total_entries=u32::MAX] tier=thorough funcs="WriteAheadLog::push" bounds="block 4096; fresh block zero except total_entries = u32::MAX; 80-byte record" stubs="std::fmt::format" assume="region: total_entries == u32::MAX"
+#[kani::proof]
+#[kani::unwind(12)]
+#[kani::stub(std::fmt::format, stub_format)]
+fn c17_push_entries_max() {
+    let mut header = any_header(1);
+    header.metadata_mut().block_header.used_bytes = 0;
+    header.metadata_mut().wal_header.total_entries = u32::MAX;
+    let mut wal = WriteAheadLog { header, current_block: None, flush_queue: VecDeque::new(), file: fake_dbfile(), block_size: BS };
+    let rec = OwnedRecord::new(kani::any(), kani::any(), None, None, None, RecordType::Commit, &[], &[]);
+    kani::cover!(true, "reach");
+    let ok = okf(wal.push(rec)).is_some();
+    assert!(ok, "push_accepts_record_that_fits");
+    std::mem::forget(wal);
+}
+
+// =============================================================================================================
+// C17.reader_step : one call of WalReader::next_ref (and WalReader::new)
+// =============================================================================================================
+// Reader invariant assumed (RINV), established by WalReader::new and kept by next_ref:
+//   * read_ahead_size = k * block_size with k >= 1 (k in {1,2} here), block_queue.len() <= k;
+//   * block_queue holds the file blocks [file_offset/bs - len, file_offset/bs), file_offset is block aligned, >= bs,
+//     and <= total_blocks * bs unless nothing was ever loaded;
+//   * current_block_index = None (reading block zero) or Some(i), i <= len; i == len => current_block_offset == 0;
+//   * current_block_offset is a record boundary of the current block: <= used_bytes, and if < used_bytes a record
+//     header with 80 <= total_size <= used_bytes - offset, multiple of 8, starts there (records tile [0, used_bytes));
+//   * every block on disk below total_blocks has used_bytes == 0 or a valid record at offset 0 (same tiling).
+// Bound: at most 2 blocks of the file are still unread (keeps the skip-empty-blocks loop finite), total_blocks <= 1000.
+
+/// a record header with symbolic valid total_size at data offset `off` of a block whose fill level is `used`
+unsafe fn put_record(data: *mut u8, off: usize, used: usize) {
+    if used > off {
+        let s: usize = kani::any();
+        kani::assume(s % 8 == 0 && s >= RH && s <= used.wrapping_sub(off));
+        let h = RecordHeader {
+            lsn: kani::any(),
+            tid: kani::any(),
+            prev_lsn: None,
+            object_id: None,
+            row_id: None,
+            total_size: s as u32,
+            undo_len: 0,
+            redo_len: 0,
+            log_type: RecordType::Begin,
+            padding: [0; 7],
+        };
+        unsafe { *(data.add(off) as *mut RecordHeader) = h };
+    }
+}
+/// fill level of a valid block whose next unread record boundary is `off`
+fn any_used_from(off: usize, cap: usize) -> usize {
+    let u: usize = kani::any();
+    kani::assume(u % 8 == 0 && u <= cap && u >= off && (u == off || u >= off.wrapping_add(RH)));
+    u
+}
+/// `<DBFile as Read>::read`: a whole block is delivered; its content is an arbitrary valid block
+pub(crate) fn stub_read(_f: &mut DBFile, buf: &mut [u8]) -> io::Result<usize> {
+    unsafe {
+        let mut used = 0usize;
+        if buf.len() == BS && TR.pos > 0 {
+            used = any_used_from(0, WB_CAP);
+            let h = &mut *(buf.as_mut_ptr() as *mut BlockHeader);
+            h.block_number = kani::any();
+            h.used_bytes = used as u64;
+            put_record(buf.as_mut_ptr().add(BH), 0, used);
+        }
+        if TR.n < TR_MAX {
+            let mut e = EV0;
+            e.kind = 3;
+            e.off = TR.pos;
+            e.len = buf.len();
+            e.ptr = buf.as_ptr();
+            e.hdr_used_bytes = used as u64;
+            TR.ev[TR.n] = e;
+            TR.n += 1;
+        } else {
+            TR.overflow = true;
+        }
+        if !TR.pos_valid {
+            TR.bad_seek = true;
+        }
+        TR.pos = TR.pos.wrapping_add(buf.len() as u64);
+    }
+    Ok(buf.len())
+}
+
+const MAXC: usize = 6;
+/// One call of next_ref.  Geometry is concrete (n loaded blocks, cursor, `unread` blocks left in the file, read-ahead
+/// k): with symbolic total_blocks/file_offset the skip-empty-blocks loop around reload_blocks needs > 16 GB.  The
+/// symbolic arithmetic of reload_blocks is covered separately (C17.reader_reload).  Fill levels, record sizes and the
+/// content of the blocks delivered by the file are symbolic.
+fn reader_case(n: usize, idx: Option<usize>, off: usize, k: usize, unread: u64) {
+    let bs = BS as u64;
+    let fo_blocks: u64 = 1 + n as u64; // file_offset / bs: block zero + the n loaded blocks
+    let tb: u64 = fo_blocks + unread;
+    // candidate list for the oracle: (data pointer, start offset, used)
+    let mut c_ptr = [std::ptr::null::<u8>(); MAXC];
+    let mut c_start = [0usize; MAXC];
+    let mut c_used = [0usize; MAXC];
+    let mut nc = 0usize;
+    // block zero
+    let mut header = BlockZero::alloc(0, BS);
+    let reading_header = idx.is_none();
+    let h_used = if reading_header { any_used_from(off, BZ_CAP) } else { any_used_from(0, BZ_CAP) };
+    header.metadata_mut().block_header.used_bytes = h_used as u64;
+    if reading_header {
+        unsafe { put_record(header.data_mut().as_mut_ptr(), off, h_used) };
+        c_ptr[nc] = header.data().as_ptr();
+        c_start[nc] = off;
+        c_used[nc] = h_used;
+        nc += 1;
+    }
+    // loaded blocks
+    let mut queue: Vec<WalBlock> = Vec::with_capacity(2);
+    let first_live = match idx {
+        Some(i) => i,
+        None => 0,
+    };
+    let mut j = 0;
+    while j < n {
+        let start = if idx == Some(j) { off } else { 0 };
+        let used = any_used_from(start, WB_CAP);
+        let mut b = any_block(kani::any(), used as u64);
+        if j >= first_live {
+            unsafe { put_record(b.data_mut().as_mut_ptr(), start, used) };
+            c_ptr[nc] = b.data().as_ptr();
+            c_start[nc] = start;
+            c_used[nc] = used;
+            nc += 1;
+        }
+        queue.push(b);
+        j += 1;
+    }
+    let mut f = fake_dbfile();
+    let mut reader = WalReader {
+        file: &mut f,
+        header,
+        block_queue: queue,
+        read_ahead_size: k * BS,
+        current_block_offset: off,
+        current_block_index: idx,
+        file_offset: fo_blocks * bs,
+        total_blocks: tb,
+        block_size: BS,
+    };
+    kani::cover!(true, "reach");
+
+    let (found, rp, rs) = match okf(reader.next_ref()) {
+        Some(Some(r)) => (1u8, r.metadata() as *const RecordHeader as *const u8, r.total_size()),
+        Some(None) => (0u8, std::ptr::null::<u8>(), 0usize),
+        None => (2u8, std::ptr::null::<u8>(), 0usize),
+    };
+
+    // blocks read during the call join the candidate list, and must lie inside the announced file
+    let nread = n_ev();
+    let mut reads_ok = unsafe { !TR.overflow && !TR.bad_seek };
+    let mut i = 0;
+    while i < nread {
+        let e = ev(i);
+        reads_ok = reads_ok && e.kind == 3 && e.len == BS && e.off == (fo_blocks.wrapping_add(i as u64)).wrapping_mul(bs) && e.off.wrapping_add(bs) <= tb.wrapping_mul(bs);
+        if nc < MAXC {
+            c_ptr[nc] = e.ptr.wrapping_add(BH); // may point into a block that a later reload already freed
+            c_start[nc] = 0;
+            c_used[nc] = e.hdr_used_bytes as usize;
+            nc += 1;
+        }
+        i += 1;
+    }
+    // oracle: the first candidate that still has an unread record
+    let mut want: *const u8 = std::ptr::null();
+    let mut want_start = 0usize;
+    let mut want_used = 0usize;
+    let mut have = false;
+    let mut c = 0;
+    while c < nc {
+        if !have && c_start[c] < c_used[c] {
+            have = true;
+            want = c_ptr[c].wrapping_add(c_start[c]);
+            want_used = c_used[c];
+            want_start = c_start[c];
+        }
+        c += 1;
+    }
+    let fo_post = reader.file_offset;
+    let off_post = reader.current_block_offset;
+    let cur_post: *const u8 = match reader.current_block_index {
+        None => reader.header.data().as_ptr(),
+        Some(i) => {
+            if i < reader.block_queue.len() {
+                reader.block_queue[i].data().as_ptr()
+            } else {
+                std::ptr::null()
+            }
+        }
+    };
+    kani::cover!(have, "some_record_left");
+    kani::cover!(!have, "log_exhausted");
+    assert!(found != 2, "next_ref_succeeds_when_io_succeeds");
+    assert!(reads_ok, "reads_whole_blocks_sequentially_below_total_blocks");
+    assert!(fo_post == (fo_blocks.wrapping_add(nread as u64)).wrapping_mul(bs), "file_offset_counts_blocks_read");
+    if have {
+        assert!(found == 1 && rp == want, "returns_next_unread_record");
+        // the record starts before used_bytes of its block and the cursor moved strictly past it
+        assert!(rs >= RH && want_start.wrapping_add(rs) <= want_used, "returned_record_inside_used_bytes");
+        assert!(!cur_post.is_null() && cur_post.wrapping_add(off_post) == want.wrapping_add(rs), "cursor_strictly_after_returned_record");
+    } else {
+        assert!(found == 0, "no_record_returned_that_was_not_appended");
+        assert!(fo_post >= tb.wrapping_mul(bs), "end_of_log_only_after_last_block");
+    }
+    std::mem::forget(reader);
+    std::mem::forget(f);
+}
+
+macro_rules! hreader {
+    ($name:ident, $n:expr, $idx:expr, $off:expr, $k:expr, $unread:expr, $unwind:expr) => {
+        #[kani::proof]
+        #[kani::unwind($unwind)]
+        #[kani::stub(<DBFile as std::io::Seek>::seek, stub_seek)]
+        #[kani::stub(<DBFile as std::io::Read>::read, stub_read)]
+        fn $name() {
+            reader_case($n, $idx, $off, $k, $unread);
+        }
+    };
+}
+// --- cursor laws, nothing left to load ---------------------------------------------------------------------------
+// @obl harness=c17_reader_hdr_q0 id=C17.reader_step[block0;q=0] tier=quick funcs="WalReader::next_ref" bounds="block 4096; cursor in block zero at offset 160; no block loaded, none unread (total_blocks = 1); fill level and record size symbolic" stubs="<DBFile as Seek>::seek,<DBFile as Read>::read" assume="RINV (see above)" unwind=6
+hreader!(c17_reader_hdr_q0, 0, None, 160, 1, 0, 6);
+// @obl harness=c17_reader_hdr_q2 id=C17.reader_step[block0;q=2] tier=thorough funcs="WalReader::next_ref" bounds="block 4096; cursor in block zero at offset 0; 2 blocks loaded, none unread (total_blocks = 3); fill levels and record sizes symbolic" stubs="<DBFile as Seek>::seek,<DBFile as Read>::read" assume="RINV" unwind=7
+hreader!(c17_reader_hdr_q2, 2, None, 0, 2, 0, 7);
+// @obl harness=c17_reader_blk_q1 id=C17.reader_step[block;q=1] tier=quick funcs="WalReader::next_ref" bounds="block 4096; cursor in loaded block 0 at offset 96; 1 block loaded, none unread" stubs="<DBFile as Seek>::seek,<DBFile as Read>::read" assume="RINV" unwind=6
+hreader!(c17_reader_blk_q1, 1, Some(0), 96, 1, 0, 6);
+// @obl harness=c17_reader_blk_q2 id=C17.reader_step[block;q=2] tier=thorough funcs="WalReader::next_ref" bounds="block 4096; cursor in loaded block 0 at offset 0; 2 blocks loaded, none unread" stubs="<DBFile as Seek>::seek,<DBFile as Read>::read" assume="RINV" unwind=7
+hreader!(c17_reader_blk_q2, 2, Some(0), 0, 2, 0, 7);
+// --- crossing into blocks that still have to be loaded --------------------------------------------------------------
+// @obl harness=c17_reader_load_hdr id=C17.reader_step[block0;load1;k=1] tier=thorough funcs="WalReader::next_ref,WalReader::reload_blocks" bounds="block 4096; cursor in block zero at offset 160; no block loaded, 1 unread block (total_blocks = 2), read-ahead 1; content of the loaded block symbolic" stubs="<DBFile as Seek>::seek,<DBFile as Read>::read" assume="RINV" unwind=7
+hreader!(c17_reader_load_hdr, 0, None, 160, 1, 1, 7);
+// @obl harness=c17_reader_load_end id=C17.reader_step[queue_consumed;load2;k=2] tier=quick funcs="WalReader::next_ref,WalReader::reload_blocks" bounds="block 4096; the single loaded block consumed (index 1, offset 0); 2 unread blocks (total_blocks = 4), read-ahead 2" stubs="<DBFile as Seek>::seek,<DBFile as Read>::read" assume="RINV" unwind=8
+hreader!(c17_reader_load_end, 1, Some(1), 0, 2, 2, 8);
+// @obl harness=c17_reader_load_twice id=C17.reader_step[block;load1+1;k=1] tier=thorough funcs="WalReader::next_ref,WalReader::reload_blocks" bounds="block 4096; cursor in loaded block 0 at offset 0; 2 unread blocks (total_blocks = 4), read-ahead 1: up to two reloads in one call" stubs="<DBFile as Seek>::seek,<DBFile as Read>::read" assume="RINV" unwind=9
+hreader!(c17_reader_load_twice, 1, Some(0), 0, 1, 2, 9);
+
+// --- reload_blocks alone, symbolic geometry: never reads at or beyond total_blocks ----------------------------------
+fn reload_case(k: usize) {
+    let bs = BS as u64;
+    let tb: u64 = kani::any();
+    let fo_blocks: u64 = kani::any();
+    kani::assume(tb <= 1000 && fo_blocks >= 1 && fo_blocks <= 1001);
+    let header = BlockZero::alloc(0, BS);
+    let mut f = fake_dbfile();
+    let mut reader = WalReader {
+        file: &mut f,
+        header,
+        block_queue: Vec::with_capacity(2),
+        read_ahead_size: k * BS,
+        current_block_offset: 0,
+        current_block_index: Some(0),
+        file_offset: fo_blocks * bs,
+        total_blocks: tb,
+        block_size: BS,
+    };
+    kani::cover!(true, "reach");
+    let r = okf(reader.reload_blocks());
+    let nread = n_ev();
+    let left = if tb > fo_blocks { tb.wrapping_sub(fo_blocks) } else { 0 };
+    let expect = if left < k as u64 { left as usize } else { k };
+    let mut reads_ok = unsafe { !TR.overflow && !TR.bad_seek };
+    let mut i = 0;
+    while i < nread {
+        let e = ev(i);
+        reads_ok = reads_ok && e.kind == 3 && e.len == BS && e.off == (fo_blocks.wrapping_add(i as u64)).wrapping_mul(bs) && e.off.wrapping_add(bs) <= tb.wrapping_mul(bs);
+        i += 1;
+    }
+    assert!(r.is_some(), "reload_succeeds_when_io_succeeds");
+    assert!(reads_ok, "reads_whole_blocks_sequentially_below_total_blocks");
+    assert!(nread == expect, "reload_reads_min_of_read_ahead_and_remaining_blocks");
+    assert!(r == Some(expect > 0), "reload_reports_whether_blocks_were_loaded");
+    assert!(reader.file_offset == (fo_blocks.wrapping_add(nread as u64)).wrapping_mul(bs), "file_offset_counts_blocks_read");
+    assert!(reader.block_queue.len() == nread, "loaded_blocks_are_exactly_the_blocks_read");
+    std::mem::forget(reader);
+    std::mem::forget(f);
+}
+// @obl harness=c17_reader_reload_k1 id=C17.reader_reload[k=1] tier=thorough funcs="WalReader::reload_blocks" bounds="block 4096; total_blocks in 0..=1000 and file_offset/4096 in 1..=1001 symbolic; read-ahead 1 block" stubs="<DBFile as Seek>::seek,<DBFile as Read>::read" assume="file_offset block aligned and >= one block" unwind=5
+#[kani::proof]
+#[kani::unwind(5)]
+#[kani::stub(<DBFile as std::io::Seek>::seek, stub_seek)]
+#[kani::stub(<DBFile as std::io::Read>::read, stub_read)]
+fn c17_reader_reload_k1() {
+    reload_case(1);
+}
+// @obl harness=c17_reader_reload_k2 id=C17.reader_reload[k=2] tier=quick funcs="WalReader::reload_blocks" bounds="block 4096; total_blocks in 0..=1000 and file_offset/4096 in 1..=1001 symbolic; read-ahead 2 blocks" stubs="<DBFile as Seek>::seek,<DBFile as Read>::read" assume="file_offset block aligned and >= one block" unwind=5
+#[kani::proof]
+#[kani::unwind(5)]
+#[kani::stub(<DBFile as std::io::Seek>::seek, stub_seek)]
+#[kani::stub(<DBFile as std::io::Read>::read, stub_read)]
+fn c17_reader_reload_k2() {
+    reload_case(2);
+}
+
+// --- WalReader::new establishes RINV and only touches blocks below total_blocks ---------------------------------------
+fn reader_new_case(tb: u64, read_ahead: usize, k: usize) {
+    let bs = BS as u64;
+    let mut f = fake_dbfile();
+    kani::cover!(true, "reach");
+    let r = okf(WalReader::new(&mut f, read_ahead, BS, tb));
+    let nread = n_ev();
+    let left = if tb > 1 { tb.wrapping_sub(1) } else { 0 };
+    let expect = if left < k as u64 { left as usize } else { k };
+    let mut reads_ok = unsafe { !TR.overflow && !TR.bad_seek } && nread >= 1 && ev(0).kind == 3 && ev(0).off == 0 && ev(0).len == BS;
+    let mut i = 1;
+    while i < nread {
+        let e = ev(i);
+        reads_ok = reads_ok && e.kind == 3 && e.len == BS && e.off == (i as u64).wrapping_mul(bs) && e.off.wrapping_add(bs) <= tb.wrapping_mul(bs);
+        i += 1;
+    }
+    assert!(reads_ok, "reads_whole_blocks_sequentially_below_total_blocks");
+    assert!(nread == expect.wrapping_add(1), "new_reads_block_zero_and_min_of_read_ahead_and_remaining_blocks");
+    match r {
+        None => assert!(false, "new_succeeds_when_io_succeeds"),
+        Some(rd) => {
+            let inv = rd.current_block_index.is_none()
+                && rd.current_block_offset == 0
+                && rd.block_queue.len() == expect
+                && rd.read_ahead_size == k * BS
+                && rd.file_offset == (1 + expect as u64).wrapping_mul(bs)
+                && rd.total_blocks == tb
+                && rd.block_size == BS;
+            assert!(inv, "new_establishes_reader_invariant");
+            std::mem::forget(rd);
+        }
+    }
+    std::mem::forget(f);
+}
+macro_rules! hreader_new {
+    ($name:ident, $tb:expr, $ra:expr, $k:expr) => {
+        #[kani::proof]
+        #[kani::unwind(5)]
+        #[kani::stub(<DBFile as std::io::Seek>::seek, stub_seek)]
+        #[kani::stub(<DBFile as std::io::Read>::read, stub_read)]
+        fn $name() {
+            reader_new_case($tb, $ra, $k);
+        }
+    };
+}
+// @obl harness=c17_reader_new_tb0 id=C17.reader_new[total_blocks=0] tier=thorough funcs="WalReader::new" bounds="block 4096; total_blocks 0; read-ahead 4097 bytes (rounded up to 2 blocks)" stubs="<DBFile as Seek>::seek,<DBFile as Read>::read" unwind=5
+hreader_new!(c17_reader_new_tb0, 0, BS + 1, 2);
+// @obl harness=c17_reader_new_tb1 id=C17.reader_new[total_blocks=1] tier=thorough funcs="WalReader::new" bounds="block 4096; total_blocks 1; read-ahead 2 blocks" stubs="<DBFile as Seek>::seek,<DBFile as Read>::read" unwind=5
+hreader_new!(c17_reader_new_tb1, 1, 2 * BS, 2);
+// @obl harness=c17_reader_new_tb2 id=C17.reader_new[total_blocks=2] tier=quick funcs="WalReader::new" bounds="block 4096; total_blocks 2; read-ahead 2 blocks" stubs="<DBFile as Seek>::seek,<DBFile as Read>::read" unwind=5
+hreader_new!(c17_reader_new_tb2, 2, 2 * BS, 2);
+// @obl harness=c17_reader_new_tb5 id=C17.reader_new[total_blocks=5] tier=thorough funcs="WalReader::new" bounds="block 4096; total_blocks 5; read-ahead 4097 bytes (rounded up to 2 blocks)" stubs="<DBFile as Seek>::seek,<DBFile as Read>::read" unwind=5
+hreader_new!(c17_reader_new_tb5, 5, BS + 1, 2);
+
+// =============================================================================================================
+// C17.truncate_step : one call of WriteAheadLog::truncate
+// =============================================================================================================
+static mut TRUNCATES: usize = 0;
+pub(crate) fn stub_truncate(_f: &mut DBFile) -> io::Result<()> {
+    unsafe { TRUNCATES += 1 };
+    Ok(())
+}
+// @obl harness=c17_truncate_step id=C17.truncate_step tier=quick funcs="WriteAheadLog::truncate" bounds="block 4096; T in 1..=1000; 1 queued block + current block, any fill; header counters symbolic" stubs="<DBFile as FileOperations>::truncate" assume="INV"
+#[kani::proof]
+#[kani::unwind(6)]
+#[kani::stub(<DBFile as FileOperations>::truncate, stub_truncate)]
+fn c17_truncate_step() {
+    let mut s = flush_pre(1, 1, 1000);
+    kani::cover!(true, "reach");
+    let ok = okf(s.wal.truncate()).is_some();
+    let m = *s.wal.header.metadata();
+    assert!(ok && unsafe { TRUNCATES } == 1, "file_truncated_once");
+    // the state is that of a freshly created log: T = 1, nothing pending, no record, no lsn
+    assert!(s.wal.flush_queue.is_empty() && s.wal.current_block.is_none(), "nothing_pending_after_truncate");
+    assert!(m.block_header.used_bytes == 0 && m.block_header.block_first_lsn.is_none() && m.block_header.block_last_lsn.is_none(), "block_zero_empty_after_truncate");
+    assert!(m.wal_header.total_blocks == 1 && m.wal_header.total_entries == 0 && m.wal_header.global_start_lsn.is_none() && m.wal_header.global_last_lsn.is_none(), "counters_reset_after_truncate");
+    assert!(m.wal_header.block_size as usize == BS && s.wal.block_size == BS, "block_size_kept");
+    std::mem::forget(s);
+}
